@@ -1,11 +1,25 @@
 package main
 
 var propTable = map[string]*propSpec{
+	"C15": {
+		ID:          "C15",
+		Rules:       []string{"R-REGTABLE", "R-PATTERN", "R-METER"},
+		Explanation: "Decides the structural part of 'pattern matching follows the manual; a malformed pattern raises a Lua error, never a Go panic; matching work is charged': (R-PATTERN) every item type the pattern compiler can emit has a case in the matcher, nothing reachable from pattern.New panics and every error a compiler helper returns is propagated, and find/match/gmatch/gsub cannot return successfully without going through pattern.New except on the listed branches (find: plain flag, empty pattern, init past the end) — so no shortcut decides on its own what counts as a special character; (R-METER) the matcher's private budget is fed from the quota, what it consumed is charged back, and the matcher's cursor only advances where budget is consumed.",
+		NotDecided:  "the match semantics themselves (leftmost, greedy/lazy, backtracking, captures, %b, %f, gsub/gmatch over empty matches): these quantify over pattern x subject and are value-level. Out-of-range positions handed to the matcher are decided under C04 (R-POS).",
+		Assumptions: []string{"the bypass exemptions for string.find were confirmed against the manual", "R-METER's loop table entries for the matcher (amortised cursor argument) were confirmed by reading"},
+	},
+	"C17": {
+		ID:          "C17",
+		Rules:       []string{"R-PACK"},
+		Explanation: "Decides the sibling-agreement part of 'pack/unpack/packsize round-trip and reject malformed formats': the three format interpreters handle the same option characters, agree option by option on alignment, size, default size and (pack vs unpack) the Go type put on the wire, and their align() methods raise the same errors.",
+		NotDecided:  "round-trip equality for variable-width integers (sign extension, truncation, 9..16-byte fields), %q, tostring/tonumber and printf-compatibility of string.format: value-level. The hostile length prefix of unpack's 's' option is decided under C04/C06 (R-ALLOC).",
+		Assumptions: []string{"an option's behaviour is characterised by its first align/write/read/inc call and smallOptSize default; helper bodies (packInt, readVarInt, ...) are not compared"},
+	},
 	"C13": {
-		ID:    "C13",
-		Rules: []string{"R-SCHEMA", "R-MAPORDER"},
+		ID:          "C13",
+		Rules:       []string{"R-SCHEMA", "R-MAPORDER"},
 		Explanation: "Decides the structural part of 'string.dump followed by load reproduces the function': (R-SCHEMA) the item sequence writeCode puts on the wire (fields, Go wire types, length prefixes, nested constant and upvalue-name loops) equals the sequence readCode takes off it, together they cover every field of runtime.Code, the constant tags of writeConst and readConst coincide with equal payload types, and writer, reader and sniffer share one magic prefix; (R-MAPORDER) nothing reachable from string.dump iterates over a Go map, so no run-to-run ordering can reach the bytes.",
-		NotDecided: "observational equivalence of the reloaded function (that RefactorCodeConsts re-indexes constants correctly, that the closure is rebuilt with the right upvalues) and every other source of nondeterminism than map order.",
+		NotDecided:  "observational equivalence of the reloaded function (that RefactorCodeConsts re-indexes constants correctly, that the closure is rebuilt with the right upvalues) and every other source of nondeterminism than map order.",
 		Assumptions: []string{"binary.Write/Read with the same Go type and byte order are inverse (standard library)", "the order of items is the source order of the write/read calls in the two straight-line functions (their loops are the two element loops only)"},
 	},
 	"C01": {
@@ -28,7 +42,7 @@ var propTable = map[string]*propSpec{
 		Rules: []string{"R-PREC", "R-LITERAL", "R-BLAME", "R-SCANPOS"},
 		Explanation: "Decides the table-shaped and shape-visible part of 'the front end accepts Lua 5.4 syntax and decodes it faithfully': (R-PREC) the scanner's keyword and symbol maps are exactly the manual's, the parser's operator maps send each token to the operator of the same symbol and cover exactly the tokens the scanner classifies as operators, ops.Op.Precedence orders all 300 operator pairs as §3.4.8, and the associativity exceptions are exactly .. and ^; " +
 			"(R-LITERAL) literal decoding never indexes past the token's bytes (an empty long string is valid); (R-BLAME) a syntax error raised after a failed test of a token's type blames that token, so the reported line is the offending token's; (R-SCANPOS) the scanner's cursor is moved only by next()/backup(), where lines are counted and line ends normalised.",
-		NotDecided: "that every valid chunk is accepted (the grammar as a whole), the denotation of numerals and escape sequences (value-level: e.g. 9223372036854775808 is read as an integer), multi-value truncation by parentheses, line-end normalisation, spelling invariance.",
+		NotDecided:  "that every valid chunk is accepted (the grammar as a whole), the denotation of numerals and escape sequences (value-level: e.g. 9223372036854775808 is read as an integer), multi-value truncation by parentheses, line-end normalisation, spelling invariance.",
 		Assumptions: []string{"the literalTable entries (7) rest on the scanner's grammar for STRING/LONGSTRING tokens and on the escapeSeqs regular expression, confirmed by reading"},
 	},
 	"C08": {
@@ -100,59 +114,59 @@ var propTable = map[string]*propSpec{
 		},
 	},
 	"C18": {
-		ID:    "C18",
-		Rules: []string{"R-FINALIZE", "R-LOCKSET"},
+		ID:          "C18",
+		Rules:       []string{"R-FINALIZE", "R-LOCKSET"},
 		Explanation: "Decides the ordering/ownership content of 'finalisers and resource release run exactly once, in order, inside their context': finalise-extraction precedes release-extraction in PopContext, runPendingFinalizers and Runtime.Close; extracted releases always reach releaseResources and never depend on the context status; CallContext runs an isolated context's finalisers before popping it; ClonePool hands out an entry for finalising/release only under the 'not yet' flag test and marks it in the same step; its lists are touched only under its mutex (the Go finaliser runs on another goroutine).",
-		NotDecided: "exactly-once over histories that involve Go's garbage collector (which objects become unreachable when), reverse marking order (sort key values), and that a value is never finalised while still reachable.",
+		NotDecided:  "exactly-once over histories that involve Go's garbage collector (which objects become unreachable when), reverse marking order (sort key values), and that a value is never finalised while still reachable.",
 		Assumptions: []string{"the default pool in every build configuration is one of the two analysed implementations (ClonePool; UnsafePool is selected only by a build tag and is out of the claim)"},
 	},
 	"C03": {
-		ID:    "C03",
-		Rules: []string{"R-TABLEKEY"},
+		ID:          "C03",
+		Rules:       []string{"R-TABLEKEY"},
 		Explanation: "Decides structural necessary conditions of 'tables behave as a map with normalised keys; metamethods only see absent keys': the five mixedTable operations hand the hash part only the normalised key (cross-checked siblings); types with delegated equality have a matching Hash case; removal never rewrites a slot's key (tombstones keep traversal positioned); insertNewKeyValue overwrites a slot only when it is free or after relocating its occupant; SetIndex/Index consult __newindex/__index only after the raw operation found nothing.",
-		NotDecided: "the collision-chain invariants I1-I3 over all histories, border validity of the length operator, traversal completeness, and value-level equality corners (e.g. integer/float equality near 2^53): these quantify over operation histories and operand values.",
+		NotDecided:  "the collision-chain invariants I1-I3 over all histories, border validity of the length operator, traversal completeness, and value-level equality corners (e.g. integer/float equality near 2^53): these quantify over operation histories and operand values.",
 		Assumptions: []string{"the five operations named are the only entry points from mixedTable into the hash part (checked: each must contain at least one such call)"},
 	},
 	"C07": {
-		ID:    "C07",
-		Rules: []string{"R-CONTEXT", "R-GATE"},
+		ID:          "C07",
+		Rules:       []string{"R-CONTEXT", "R-GATE"},
 		Explanation: "Decides dependency-presence conditions of 'nested contexts conserve budgets and report status truthfully': a child's hard limits are computed from the parent's hard limits, its used resources (refreshed when time is tracked) and the request; soft limits from the child's new hard limits; PopContext re-charges the parent before restoring it; the status field has exactly its four owners, and CallContext sets the final status only on the error branch after everything that can still run Lua; Due() depends on stopLevel, softLimits and usedResources; required flags only grow (R-GATE b).",
-		NotDecided: "the '0 = unlimited' arithmetic of Remove/Merge/atLimit/smallerLimit over uint64 (value-level; a solver or exhaustive argument is a different family); that used never exceeds kill numerically.",
+		NotDecided:  "the '0 = unlimited' arithmetic of Remove/Merge/atLimit/smallerLimit over uint64 (value-level; a solver or exhaustive argument is a different family); that used never exceeds kill numerically.",
 		Assumptions: []string{"dependency presence is checked on SSA def-use slices (through calls), deliberately not expression shape, so inlining or renaming locals does not fire it; that the dependency is the *right* function of its inputs is not decided"},
 	},
 	"C10": {
-		ID:    "C10",
-		Rules: []string{"R-CLOSE", "R-KILL"},
+		ID:          "C10",
+		Rules:       []string{"R-CLOSE", "R-KILL"},
 		Explanation: "Decides the completeness of the to-be-closed plumbing: every compile-time scope exit (block end, goto/break) passes through a close-stack truncation to the right scope; the compile-time height is maintained only by its owners; 'close' locals and the generic for push a close action; pending close actions disable tail calls; at run time the close stack is cleaned on return, on explicit truncation, around protected calls and when a coroutine ends; a failing handler does not stop the others; declaration and closing agree on which values have a handler; nothing runs handlers after a kill (R-KILL).",
-		NotDecided: "exactly-once and reverse order over all nestings and exits (needs the heights to be right, not merely maintained); the error object passed to handlers.",
+		NotDecided:  "exactly-once and reverse order over all nestings and exits (needs the heights to be right, not merely maintained); the error object passed to handlers.",
 		Assumptions: []string{"anchors (PopContext, EmitJump, emitTruncate, cleanupCloseStack, OpClStack) are resolved by symbol; a rename fails the check rather than passing"},
 	},
 	"C16": {
-		ID:    "C16",
-		Rules: []string{"R-FOR", "R-PRIVREG", "R-SCOPE"},
+		ID:          "C16",
+		Rules:       []string{"R-FOR", "R-PRIVREG", "R-SCOPE"},
 		Explanation: "Decides the structural part of 'numeric for loops iterate the manual's sequence and terminate': the three control expressions are held in private registers (evaluated once), the loop variable is a fresh register per iteration copied from the hidden counter, non-numbers and a zero step are errors, and every store to the hidden counter in the advance step depends on a limit comparison and an overflow comparison; the per-iteration scope is popped before the back jump (R-SCOPE).",
-		NotDecided: "that the comparisons compare the right operands in the right direction: the iteration sequence, clipping of float limits and the iteration count are functions of the operand values.",
+		NotDecided:  "that the comparisons compare the right operands in the right direction: the iteration sequence, clipping of float limits and the iteration count are functions of the operand values.",
 		Assumptions: []string{"the numeric-for opcode block is located structurally (the block reading A, B, C and branching on F with three register reads)"},
 	},
 	"C11": {
-		ID:    "C11",
-		Rules: []string{"R-ERRFLOW", "R-KILL", "R-POOL"},
+		ID:          "C11",
+		Rules:       []string{"R-ERRFLOW", "R-KILL", "R-POOL"},
 		Explanation: "Decides structural necessary conditions of 'errors reach exactly the nearest protected call, with their value and position intact': no Lua-error-returning runtime operation has its error discarded (table-listed debug-hook triggers aside); every error return of the interpreter loop stores the program counter first (line attribution); a Go function's error is returned unchanged; the only frames that stop panics are the inventoried ones (pcall/xpcall/coroutine functions contain no recover and reach protected execution through CallContext) and none of them can swallow a termination; a continuation is not recycled on the error path (it is still needed for the traceback / message handler).",
-		NotDecided: "identity of the error value through every path, the exact message prefixes, xpcall handler semantics, and consistency of the program state after a caught error.",
+		NotDecided:  "identity of the error value through every path, the exact message prefixes, xpcall handler semantics, and consistency of the program state after a caught error.",
 		Assumptions: []string{"the list of Lua-error-returning runtime operations (luaErrorFuncs) was compiled by reading runtime/lib.go and thread.go"},
 	},
 	"C14": {
-		ID:    "C14",
-		Rules: []string{"R-CONFIGS", "R-POOL", "R-FINALIZE", "R-RELEASE"},
+		ID:          "C14",
+		Rules:       []string{"R-CONFIGS", "R-POOL", "R-FINALIZE", "R-RELEASE"},
 		Explanation: "Decides structural necessary conditions of 'performance build options never change behaviour': every build configuration type-checks (same API for the same callers); the noquotas manager's metering methods are pure no-ops and its push/pop handle non-quota state like the default one; pooled objects are released only by their owners, never from a deferred function, only on the no-error path, and not used afterwards (what distinguishes the pooled from the unpooled builds); the two finaliser-pool implementations agree that every mark re-stamps the mark order; constructors and destructors of continuations mirror each other (R-RELEASE pairs), under every configuration in the thorough tier.",
-		NotDecided: "equality of behaviour across configurations over all programs; that a recycled register set is indistinguishable from a fresh one (zeroing is checked only as 'released objects are not used again').",
+		NotDecided:  "equality of behaviour across configurations over all programs; that a recycled register set is indistinguishable from a fresh one (zeroing is checked only as 'released objects are not used again').",
 		Assumptions: []string{"the noscalar tag is not a configuration: at the pinned commit runtime/value_noscalar.go does not compile, and the property does not list it"},
 	},
 	"C20": {
-		ID:    "C20",
-		Rules: []string{"R-GLOBALS", "R-GO"},
+		ID:          "C20",
+		Rules:       []string{"R-GLOBALS", "R-GO"},
 		Explanation: "Decides the structural content of 'two Runtime values share no mutable state': outside package initialisation nothing in the runtime, libraries or front end stores to a package-level variable, into the object one refers to, passes one to a function that writes through that parameter (mod-ref summaries), or calls a standard-library function acting on process-wide state; and nothing but Thread.Start starts a goroutine. Each remaining hit is a listed finding or a table entry.",
-		NotDecided: "behavioural equality of interleaved runs; race freedom in general (state reachable only through a *Runtime that the host itself shares between goroutines is the host's responsibility).",
+		NotDecided:  "behavioural equality of interleaved runs; race freedom in general (state reachable only through a *Runtime that the host itself shares between goroutines is the host's responsibility).",
 		Assumptions: []string{"mod-ref summaries follow static calls; a write through an interface method or function value stored in a package-level variable is not followed", "the process-wide standard-library list was compiled by hand (math/rand top level, debug.Set*, os.Setenv/Chdir, log.Set*)"},
 	},
 }
